@@ -159,6 +159,9 @@ def part_b():
         res['check_tail'] = out[-800:]
     finally:
         sh('git -C /repo checkout -- .')
+        # the translated files were regenerated from the patched tree (or removed where a translator refused it):
+        # regenerate them from the restored one, so that later --skip-proof development runs do not see a stale coq/Gen
+        sh('bash setup.sh', cwd=VERIF, timeout=3600)
     res['detected'] = (res.get('check_rc') == 1 and bool(res['check_violation_lines']))
     # which clause caught it: kind + detail of the first replays
     caught = []
